@@ -425,6 +425,28 @@ func c03Drive(args []string) int {
 		directed = append(directed, `{"parser_settings": {"version": "omni.2.1", "file_format_type": "xml"}, "transform_declarations": {"FINAL_OUTPUT": {"xpath": `+jstr(xp)+`, "object": {"x": {"xpath": "b"}}}}}`)
 	}
 	directed = append(directed, `{"parser_settings": {"version": "omni.2.1", "file_format_type": "xml"}, "transform_declarations": {"FINAL_OUTPUT": {"xpath": "/r/a", "object": {"x": {"xpath": ".[b * 2 = 2]/b"}}}}}`)
+	// xpaths that leave the record (.., ../.., /, /..) in every position a declaration can have - array element, field, object,
+	// function argument, computed xpath, target filter - on every format (the record has a parent in some, none in others)
+	for _, smp := range miniSamples() {
+		if !map[string]bool{"mini/csv": true, "mini/csv2": true, "mini/fixedlength": true, "mini/fixedlength2": true, "mini/edi": true, "mini/json": true, "mini/xml": true}[smp.Name] {
+			continue
+		}
+		var root map[string]interface{}
+		if json.Unmarshal(smp.Schema, &root) != nil {
+			continue
+		}
+		for _, xp := range []string{"..", "../..", "../../..", "/", "/..", "./..", "..//*", "../*", "//..", "ancestor::*", "."} {
+			fo := root["transform_declarations"].(map[string]interface{})["FINAL_OUTPUT"].(map[string]interface{})
+			keep := fo["object"]
+			x := jstr(xp)
+			fo["object"] = json.RawMessage(`{"arr": {"array": [{"xpath": ` + x + `}]}, "arr2": {"array": [{"xpath": ` + x + `, "object": {"n": {"const": "1"}}}]},
+  "fld": {"xpath": ` + x + `}, "obj": {"xpath": ` + x + `, "object": {"k": {"xpath": "."}}}, "fn": {"custom_func": {"name": "concat", "args": [{"xpath": ` + x + `}]}},
+  "dyn": {"xpath_dynamic": {"const": ` + x + `}}, "cp": {"xpath": ` + x + `, "custom_func": {"name": "copy"}}}`)
+			mb, _ := json.Marshal(root)
+			fo["object"] = keep
+			record("directed-schema", "parent-axis/"+smp.Format, "xpath "+xp+" in every declaration position", mb, smp.Input, runRobust(mb, smp.Input))
+		}
+	}
 	// XML documents that name a character set in their declaration: registered names, aliases, names nobody implements,
 	// names nobody knows - each is decoded or refused, with ASCII-only and with high bytes in the data
 	for _, label := range []string{"US-ASCII", "ascii", "ISO-8859-1", "latin1", "ISO-8859-2", "ISO-8859-5", "ISO-8859-7", "ISO-8859-8", "ISO-8859-8-I", "ISO-8859-15", "ISO-8859-16",
